@@ -17,7 +17,7 @@ GMC = 'get_more_chars as a callee by the contract enforced in C08 (contracts/par
 def jobs():
     B = ('SCN (2 quick / 3 thorough) units of input with arbitrary content - every 16-bit value per unit, CIF 1.1 and CIF 2.0 class tables, every accept / reject answer of the callback; '
          'the input ends with the buffer; all loops unwound completely')
-    common = dict(tus=['parser.c'], plain=True, no_loop_contracts=True, defines={'SCN': 2}, thorough_defines={'SCN': 3}, unwind=5, unwindset=['setup.%d:200' % k for k in range(8)], text_ui=True, min_obligations=40, timeout=1200, mem_gb=24,
+    common = dict(tus=['parser.c'], plain=True, no_loop_contracts=True, concretize=False, defines={'SCN': 2}, thorough_defines={'SCN': 3}, unwind=5, unwindset=['setup.%d:200' % k for k in range(8)], text_ui=True, min_obligations=40, timeout=1200, mem_gb=24,
                   bounded=B, trusted=['reference bodies of u_memchr / u_memmove (stubs/icu_prims.h); the specification of the character rules in the harness (written from CIF 2.0 / 1.1)'])
     C = ['a disallowed unit among the consumed units => CIF_DISALLOWED_CHAR reported at that unit', 'unpaired lead / trail surrogate => CIF_INVALID_CHAR, trail replaced',
          'surrogate pair encoding a noncharacter => two-unit CIF_DISALLOWED_CHAR', 'no report that the original text does not justify', 'text pointer inside the buffer for the stated length, line >= 1',
@@ -29,6 +29,9 @@ def jobs():
     ]
     for j in js:
         j.thorough_unwind = 5
+    h = dict(common); h.update(defines={'SCN': 7}, thorough_defines={'SCN': 7}, unwind=9, bounded='tokens of seven units: five drawn from the letters of data_ / save_ (either case) or x, two from [ { ] } q blank; CIF 2.0 table; complete unwinding')
+    js.append(Job('scan_unquoted_header', 'parser_scanb_h.c', entry='harness_scan_unquoted_header', functions=['scan_unquoted', 'get_more_chars'], reach=['bracket-in-header', 'missing-space'],
+                  clauses=['opening bracket after an unquoted value => CIF_MISSING_SPACE unless the token is a data_ / save_ header (keyword complete)', 'recovery: value ends before the bracket'], **h))
     return js
 
 
